@@ -7,6 +7,7 @@ mod rng;
 mod c09;
 mod search;
 mod searchprops;
+mod c20;
 #[allow(dead_code)]
 mod jsonproto;
 mod c15;
@@ -72,6 +73,7 @@ fn main() {
         "C07" => c07::run(&mut ctx),
         "C11" => c11::run(&mut ctx),
         "C18" => c18::run(&mut ctx),
+        "C20" => c20::run(&mut ctx),
         _ => {
             eprintln!("unknown property {}", prop);
             std::process::exit(2);
